@@ -157,30 +157,37 @@ def stale_requested_history():
 SV_VCPU_BASE_ADDR = 0xf5007f00 + 0xcc
 
 
-def canon_trace(trace):
-    """Sort the per-core state reads (pairs: read sv.vcpu_base, read vcpu.cpu_state) within one chip's run
-    by address: CPython's iteration order over a set of core numbers is not part of the model."""
+def canon_trace(trace, call_map, vcpu):
+    """Sort the per-core state reads (pairs: read sv.vcpu_base, read vcpu.cpu_state) of one entry
+    `(x, y): cores` of the map by core number: CPython's iteration order over a set of core numbers is not part
+    of the model.  A run of reads on one chip is split between the binaries that name this chip, in map
+    order (each takes the longest prefix of cores it names)."""
     out, i = [], 0
+    core = lambda e: (e[4] - vcpu - 46) // 128
     while i < len(trace):
         e = trace[i]
-        if e[3] == 2 and (e[0], e[1]) != (255, 255) and e[4] == SV_VCPU_BASE_ADDR and i + 1 < len(trace) \
-                and trace[i + 1][3] == 2 and trace[i + 1][:2] == e[:2]:
-            run = []
-            while i + 1 < len(trace) and trace[i][3] == 2 and trace[i][:2] == e[:2] \
-                    and trace[i][4] == SV_VCPU_BASE_ADDR and trace[i + 1][3] == 2 and trace[i + 1][:2] == e[:2] \
-                    and trace[i + 1][4] != SV_VCPU_BASE_ADDR:
-                run.append((trace[i], trace[i + 1]))
-                i += 2
-            if not run:
-                out.append(e)
-                i += 1
-                continue
-            run.sort(key=lambda pr: pr[1][4])
-            for a, b in run:
-                out += [a, b]
-        else:
+        run = []
+        while i + 1 < len(trace) and trace[i][3] == 2 and trace[i][:2] == e[:2] and e[:2] != [255, 255] \
+                and trace[i][4] == SV_VCPU_BASE_ADDR and trace[i + 1][3] == 2 and trace[i + 1][:2] == e[:2] \
+                and trace[i + 1][4] != SV_VCPU_BASE_ADDR:
+            run.append((trace[i], trace[i + 1]))
+            i += 2
+        if not run:
             out.append(e)
             i += 1
+            continue
+        sets = [set(ps) for b, ts in call_map for x, y, ps in ts if [x, y] == e[:2]]
+        j = 0
+        for S in sets:
+            seg = []
+            while j < len(run) and core(run[j][1]) in S:
+                seg.append(run[j])
+                j += 1
+            seg.sort(key=lambda pr: pr[1][4])
+            for a, b in seg:
+                out += [a, b]
+        for a, b in run[j:]:
+            out += [a, b]
     return out
 
 
@@ -189,17 +196,67 @@ def zl(l):
     return vlist(zlit(v) for v in l)
 
 
-def coq_core(c):
-    if c == IDLE:
-        return "idle_core"
-    return "mkCore %s %s %s" % (zlit(c[0]), zlit(c[1]), zl(c[2]))
+class Lits(object):
+    """Coq literals of one history; byte strings that occur in a binary are written as a reference to it
+    (checked here, byte for byte) so that the files stay small."""
 
+    def __init__(self, c, tag):
+        self.c, self.tag = c, tag
+        self.bins = [bytes(bytearray(b)) for b in c["binaries"]]
 
-def coq_machine(m):
-    chips = vlist("((%s, %s), mkChip %s None)" % (zlit(x), zlit(y), vlist(coq_core(c) for c in cs))
-                  for x, y, cs in m["chips"])
-    sched = vlist(vlist("(%s, %s)" % (zlit(c[0]), zlit(c[1])) for c in miss) for miss in m["sched"])
-    return "mkMachine %s %s %s %s %s []" % (zlit(m["buffer"]), zlit(m["base"]), zlit(m["vcpu"]), chips, sched)
+    def data(self, d):
+        if len(d) >= 6:
+            raw = bytes(bytearray(d))
+            for k, b in enumerate(self.bins):
+                pos = b.find(raw)
+                if pos == 0 and len(raw) == len(b):
+                    return "(B%s %d)" % (self.tag, k)
+                if pos >= 0:
+                    assert list(bytearray(b[pos:pos + len(raw)])) == list(d)
+                    return "(slice (B%s %d) %d %d)" % (self.tag, k, pos, pos + len(raw))
+        return zl(d)
+
+    def core(self, c):
+        if c == IDLE:
+            return "idle_core"
+        return "mkCore %s %s %s" % (zlit(c[0]), zlit(c[1]), self.data(c[2]))
+
+    def machine(self, m):
+        chips = vlist("((%s, %s), mkChip %s None)" % (zlit(x), zlit(y), vlist(self.core(c) for c in cs))
+                      for x, y, cs in m["chips"])
+        sched = vlist(vlist("(%s, %s)" % (zlit(c[0]), zlit(c[1])) for c in miss) for miss in m["sched"])
+        return "mkMachine %s %s %s %s %s []" % (zlit(m["buffer"]), zlit(m["base"]), zlit(m["vcpu"]), chips, sched)
+
+    def entry(self, e):
+        x, y, p, cmd, a1, a2, a3, data, r1, rdata = e
+        if r1 == -1:
+            rep = "RError"
+        elif cmd == 0:
+            rep = "RSver %s" % zlit(r1)
+        elif cmd == 2:
+            rep = "RData %s" % zl(rdata)
+        else:
+            rep = "RArgs %s" % zlit(r1)
+        return "(mkPkt %s %s %s %s %s %s %s %s, %s)" % (zlit(x), zlit(y), zlit(p), zlit(cmd), zlit(a1), zlit(a2),
+                                                         zlit(a3), self.data(data), rep)
+
+    def state(self, st):
+        return vlist("((%s, %s), %s)" % (zlit(x), zlit(y), vlist(self.core(c) for c in cs)) for x, y, cs in st)
+
+    def vernac(self, outs):
+        """Definitions of the history and of the implementation's side, then one Eval."""
+        c, t = self.c, self.tag
+        vcpu = c["machine"]["vcpu"]
+        impl = vlist("(%s, %s)" % (vlist(self.entry(e) for e in canon_trace(o["trace"], k["map"], vcpu)),
+                                   self.state(o["state"])) for k, o in zip(c["calls"], outs))
+        return ("Definition bins%s : list (list Z) := %s.\n"
+                "Definition B%s (k : nat) : list Z := nth k bins%s [].\n"
+                "Definition m%s : machine := %s.\n"
+                "Definition impl%s : list impl_call := %s.\n"
+                "Definition calls%s : list call := %s.\n"
+                "Eval vm_compute in (observe (run_calls bins%s ctrl_init m%s calls%s) impl%s, validate m%s impl%s).\n"
+                % (t, vlist(zl(b) for b in c["binaries"]), t, t, t, self.machine(c["machine"]), t, impl,
+                   t, vlist(coq_call(k) for k in c["calls"]), t, t, t, t, t, t))
 
 
 def coq_call(k):
@@ -214,35 +271,32 @@ def coq_call(k):
     return "(true, %s, mkArgs %s %s %s %s)" % (amap, zlit(k["app_id"]), wait, tries, cnt)
 
 
-def coq_entry(e):
-    x, y, p, cmd, a1, a2, a3, data, r1, rdata = e
-    if r1 == -1:
-        rep = "RError"
-    elif cmd == 0:
-        rep = "RSver %s" % zlit(r1)
-    elif cmd == 2:
-        rep = "RData %s" % zl(rdata)
-    else:
-        rep = "RArgs %s" % zlit(r1)
-    return "(mkPkt %s %s %s %s %s %s %s %s, %s)" % (zlit(x), zlit(y), zlit(p), zlit(cmd), zlit(a1), zlit(a2),
-                                                     zlit(a3), zl(data), rep)
+HEADER = ("From Coq Require Import ZArith List Bool. Import ListNotations. Open Scope Z_scope.\n"
+          "Require Import Rig.Generated.GenLoad Rig.Model.Base Rig.Model.Load.\n")
 
 
-def coq_state(st):
-    return vlist("((%s, %s), %s)" % (zlit(x), zlit(y), vlist(coq_core(c) for c in cs)) for x, y, cs in st)
-
-
-def coq_history(c, outs):
-    impl = vlist("(%s, %s)" % (vlist(coq_entry(e) for e in canon_trace(o["trace"])), coq_state(o["state"]))
-                 for o in outs)
-    return ("let bins := %s in let m0 := %s in let impl := %s in "
-            "(observe (run_calls bins ctrl_init m0 %s) impl, validate m0 impl)"
-            % (vlist(zl(b) for b in c["binaries"]), coq_machine(c["machine"]), impl,
-               vlist(coq_call(k) for k in c["calls"])))
+def eval_histories(chk, items, shard):
+    """items: [(case, outs)] -> parsed values, one per history (files of `shard` histories, in parallel)."""
+    import concurrent.futures
+    texts = []
+    for s0 in range(0, len(items), shard):
+        body = HEADER + "".join(Lits(c, "_%d" % j).vernac(o) for j, (c, o) in enumerate(items[s0:s0 + shard]))
+        texts.append(("hist_%d" % (s0 // shard), body, len(items[s0:s0 + shard])))
+    with concurrent.futures.ThreadPoolExecutor(max_workers=min(12, os.cpu_count() or 4)) as ex:
+        results = list(ex.map(lambda t: chk.coqc_text(t[0], t[1], 1500), texts))
+    vals = []
+    for (name, _, n), out in zip(texts, results):
+        if "@@COQC-FAILED" in out:
+            raise RuntimeError("model evaluation failed in %s: %s" % (name, out[-1500:]))
+        vs = lib.split_evals(out)
+        if len(vs) != n:
+            raise RuntimeError("model evaluation %s printed %d values for %d histories: %s" % (name, len(vs), n, out[-800:]))
+        vals.extend(lib.parse_term(v) for v in vs)
+    return vals
 
 
 def model_map(u):
-    return [[b, [[x, y, sorted(ps)] for (x, y), ps in ts]] for b, ts in u]
+    return [[b, [[x, y, sorted(ps)] for x, y, ps in ts]] for b, ts in u]
 
 
 # ------------------------------------------------------------------ independent oracle
@@ -533,11 +587,8 @@ def run(chk, args):
     # ---- model: correspondence + trace validator
     if chk.model_ok and built:
         try:
-            header = ("From Coq Require Import ZArith List Bool. Import ListNotations. Open Scope Z_scope.\n"
-                      "Require Import Rig.Generated.GenLoad Rig.Model.Base Rig.Model.Load.\n")
             idx = [i for i, o in enumerate(outs) if o != ["hang"]]
-            vals = chk.coq_eval(header, [coq_history(cases[i], outs[i]) for i in idx],
-                                shard=8 if chk.tier == "quick" else 40, timeout=1500)
+            vals = eval_histories(chk, [(cases[i], outs[i]) for i in idx], 10 if chk.tier == "quick" else 50)
             bad = 0
             for i, v in zip(idx, vals):
                 c, o = cases[i], outs[i]
@@ -583,10 +634,10 @@ def run(chk, args):
                            "every datagram with its reply, every core state, nn id) + trace validator" % len(idx), True)
         except RuntimeError as e:
             chk.oblige("correspondence:model-evaluates", False, str(e))
-    chk.coverage["rule"] = ("fault histories: machine of 1-6 chips of a pool spanning several regions (6% a whole 4x4 "
+    chk.coverage["rule"] = ("fault histories: machine of 1-6 chips of a pool spanning several regions (6%% a whole 4x4 "
                             "block), buffer in {8,12,16,32,64,256}, 1-3 binaries of k*buffer-4/+0/+4 bytes, cores left "
-                            "waiting/running by earlier sessions (45%), per-fill miss sets with rate in {0,.15,.3,.5,.8,1}, "
-                            "1-3 calls on one controller (93% load_application, both modes, wait, n_tries 0-3, one- and "
+                            "waiting/running by earlier sessions (45%%), per-fill miss sets with rate in {0,.15,.3,.5,.8,1}, "
+                            "1-3 calls on one controller (93%% load_application, both modes, wait, n_tries 0-3, one- and "
                             "two-argument forms); every 8th history malformed (%s); preceded by the K3 and the "
                             "stale-requested-core witnesses and corpus/C09.json; non-trivial = an in-domain "
                             "load_application call and (a missed fill or a core already waiting or an earlier call); "
